@@ -40,13 +40,23 @@ type Tape struct {
 	Bytes []byte // every byte served so far
 	Reads []Read
 	Mark  string
+	Chunk int // > 0: serve at most Chunk bytes per Read call
 }
 
-func NewTape(src io.Reader) *Tape { return &Tape{src: src} }
+// DefaultChunk, when > 0, makes every tape created afterwards serve at most that many bytes per
+// Read call (a legal io.Reader behaviour: short reads without error). A harness sets it around a
+// run to check that the protocol code draws ALL its randomness with io.ReadFull-style loops —
+// code that ignores the byte count of a short read leaves part of a "random" value constant.
+var DefaultChunk int
+
+func NewTape(src io.Reader) *Tape { return &Tape{src: src, Chunk: DefaultChunk} }
 
 func (t *Tape) Read(p []byte) (int, error) {
 	t.mu.Lock()
 	defer t.mu.Unlock()
+	if t.Chunk > 0 && len(p) > t.Chunk {
+		p = p[:t.Chunk]
+	}
 	n, err := io.ReadFull(t.src, p)
 	t.Reads = append(t.Reads, Read{Off: len(t.Bytes), N: n, Tag: t.Mark})
 	t.Bytes = append(t.Bytes, p[:n]...)
